@@ -458,13 +458,13 @@ def plan_cases(ctx):
     counts = {}
     executed = {}
     insts = ["q1", "q2", "q3"] if quick else ["q1", "q2", "q3", "t1", "t2", "t3", "t4"]
-    share = {"q1": 1.0, "q2": 1.0, "q3": 0.25, "t1": 0.5, "t2": 0.25, "t3": 0.1, "t4": 0.1}
-    tell_share = {"q1": 0.25, "q2": 0.15, "q3": 0.1, "t1": 0.2, "t2": 0.1, "t3": 0.1, "t4": 0.1}
+    share = {"q1": 1.0, "q2": 1.0, "q3": 0.15, "t1": 0.5, "t2": 0.25, "t3": 0.1, "t4": 0.1}
+    tell_share = {"q1": 0.15, "q2": 0.1, "q3": 0.1, "t1": 0.2, "t2": 0.1, "t3": 0.1, "t4": 0.1}
     if quick:
-        other = {"q1": {"journal": 1500, "grpc": 200, "sqlite": 450, "cached": 60},
+        other = {"q1": {"journal": 1200, "grpc": 180, "sqlite": 380, "cached": 50},
                  "q2": {"journal": 600, "grpc": 80, "sqlite": 60, "cached": 20},
                  "q3": {"journal": 300, "grpc": 40, "sqlite": 30, "cached": 10}}
-        n_rand = {"inmem": 4000, "journal": 1000, "grpc": 150, "sqlite": 180, "cached": 40}
+        n_rand = {"inmem": 3000, "journal": 800, "grpc": 120, "sqlite": 160, "cached": 30}
     else:
         other = {"q1": {"journal": 6000, "grpc": 1200, "sqlite": 2500, "cached": 400},
                  "t1": {"journal": 6000, "grpc": 1200, "sqlite": 2500, "cached": 400},
